@@ -23,7 +23,11 @@ PROVED_NOTE = ("proved: .if = its first block / else block / nothing according t
                "only by the labels of the loop's internal scopes (simulation over every resolver operation, node and pass). "
                ".if END TO END: assemble_ast of a program with .if = assemble_ast of the program with the selected branch written in place "
                "(non-zero incl. negative -> first block, zero/undefined -> else or nothing), up to the nesting limit (the branch is one level "
-               "deeper; side condition shown necessary). Correspondence-only: that codegen.py computes what the model computes.")
+               "deeper; side condition shown necessary). Correspondence-only: that codegen.py computes what the model computes."
+               " SOURCE TEXT: the front-end round trip (Front_roundtrip: printing a printable AST, scanning and parsing the text "
+               "gives the AST back up to positions; Front_assemble_ast_printed: assembling the printed text gives the blocks and labels of "
+               "the AST-level assembly) carries these AST-level statements to the source text of every printable program; its lexicon "
+               "side condition is discharged on the lexicon regenerated from /repo in each run.")
 MANIFEST = {
     "text": ("Coq theorems over the Gallina model of generate_if/generate_for (all conditions, bounds, bodies); model tied to "
              "the code by differential runs; oracle: the implementation's output for the program equals its output for the "
